@@ -212,6 +212,7 @@ func c04Run(c *Ctx) {
 		}
 	}
 	layers = append(layers, sweepLayer{"scale", GenOpts{Scale: true, ScaleThorough: c.Thorough(), RichEnv: true}, 0, []Flags{{}, {N: true, B: true, I: true, W: true}, zsets[0]}})
+	layers = append(layers, sweepLayer{"spellings", GenOpts{LeafSet: 2, OneGate: true, RichEnv: true, Spellings: true}, 0, []Flags{{}, {N: true, B: true, I: true, W: true, F: []string{ns}}}})
 	report := func(root *LNode, line, desc string, fl Flags, out string, ok bool, replay map[string]any) {
 		diffs := c04Eval(root, fl, out, ok)
 		if len(diffs) == 0 {
